@@ -23,10 +23,14 @@ type c02Case struct {
 type pgen struct {
 	t      *rapid.T
 	leaves int
+	ext    bool // also draw custom-domain-property steps (apiExt.w0, apiExt.w1)
 }
 
 func (g *pgen) leaf() *m.P {
 	g.leaves--
+	if g.ext && rapid.IntRange(0, 7).Draw(g.t, "extLeaf") == 0 {
+		return m.Ext(fmt.Sprintf("w%d", rapid.IntRange(0, 1).Draw(g.t, "extName")), rapid.IntRange(0, 2).Draw(g.t, "extInv") == 0)
+	}
 	switch rapid.IntRange(0, 9).Draw(g.t, "leafKind") {
 	case 0:
 		return m.TypeStep()
@@ -63,6 +67,12 @@ func genPathGraph(t *rapid.T, maxNodes int) *m.Graph {
 			g.Add(classTest)
 		}
 	}
+	// nodes that are not targets may be blank nodes (JSON-LD relabels them, so they are compared by count)
+	for i := 0; i < n; i++ {
+		if !g.Nodes[i].HasType(classTest) && rapid.IntRange(0, 3).Draw(t, "blank") == 0 {
+			g.Nodes[i].ID = fmt.Sprintf("_:x%d", i)
+		}
+	}
 	litPool := []m.Lit{m.S("a"), m.S("b"), m.I(1), m.I(2), m.B(true), m.S("1")}
 	for i := 0; i < n; i++ {
 		nd := g.Nodes[i]
@@ -81,6 +91,23 @@ func genPathGraph(t *rapid.T, maxNodes int) *m.Graph {
 			}
 			if rapid.IntRange(0, 7).Draw(t, "nodeInLit") == 0 {
 				nd.AddVal(fmt.Sprintf("%sp%d", m.NS, p), m.NV(rapid.IntRange(0, n-1).Draw(t, "tgt2")))
+			}
+		}
+	}
+	// custom domain properties: extension nodes named w0/w1 hanging off some nodes, with values and edges of their own
+	for i := 0; i < n; i++ {
+		k := rapid.IntRange(0, 4).Draw(t, "extensions")
+		if k > 2 {
+			k = 0
+		}
+		for j := 0; j < k; j++ {
+			x := g.Add(m.NS + "Extension")
+			g.AttachExtension(i, x, fmt.Sprintf("w%d", rapid.IntRange(0, 1).Draw(t, "extName")))
+			for _, l := range subset(t, litPool, 0, 2, "extLits") {
+				g.Nodes[x].AddVal(m.NS+"p0", m.LV(l))
+			}
+			if rapid.Bool().Draw(t, "extEdge") {
+				g.Nodes[x].AddVal(m.NS+"e0", m.NV(rapid.IntRange(0, n-1).Draw(t, "extTgt")))
 			}
 		}
 	}
@@ -126,7 +153,7 @@ func pathProfile(name, pathText string) string {
 }
 
 func genC02(t *rapid.T) c02Case {
-	pg := &pgen{t: t, leaves: 6}
+	pg := &pgen{t: t, leaves: 6, ext: true}
 	if ev.Thorough() {
 		pg.leaves = 10
 	}
@@ -198,13 +225,20 @@ func decideC02(c c02Case) ev.Verdict {
 			} else {
 				wantStrings = append(wantStrings, c.Graph.Nodes[r.Val.Node].ID)
 				wantNodes = append(wantNodes, c.Graph.Nodes[r.Val.Node].ID)
-				if r.Finals["fwd"] && r.Finals["inv"] {
+				// one node, several representations in the value set (link object / whole node / id string)
+				reps := 0
+				for _, k := range []string{"fwd", "inv", "ext"} {
+					if r.Finals[k] {
+						reps++
+					}
+				}
+				if reps >= 2 {
 					fwdInv = true
 				}
 			}
 		}
-		wantStrings = dedupSorted(wantStrings)
-		sort.Strings(wantNodes)
+		wantStrings = blankByCount(dedupSorted(wantStrings))
+		wantNodes = blankByCount(dedupSorted(wantNodes))
 		if len(den) > 0 {
 			anyNonEmpty = true
 		}
@@ -222,7 +256,7 @@ func decideC02(c c02Case) ev.Verdict {
 					}
 				}
 			}
-			gotStrings = dedupSorted(gotStrings)
+			gotStrings = blankByCount(dedupSorted(gotStrings))
 			if !m.EqualStrings(wantStrings, gotStrings) {
 				return ev.Violation("c02-values-mismatch", "path %q from %s (%s): constraint applied to values %v, the path denotes %v\ngraph:\n%s", c.PathText, n.ID, grp.tag, gotStrings, wantStrings, c.Graph)
 			}
@@ -271,7 +305,7 @@ func decideC02(c c02Case) ev.Verdict {
 					}
 				}
 			}
-			gotNodes = dedupSorted(gotNodes)
+			gotNodes = blankByCount(dedupSorted(gotNodes))
 			if reported != (len(wantNodes) > 0) {
 				return ev.Violation("c02-nested-presence", "path %q from %s (%s): nested reported=%v, the path reaches nodes %v", c.PathText, n.ID, grp.tag, reported, short(wantNodes))
 			}
@@ -298,6 +332,23 @@ func decideC02(c c02Case) ev.Verdict {
 	}
 	v.NonTrivial = c.Path.Ops() >= 2 && anyNonEmpty
 	return v
+}
+
+// blankByCount replaces blank-node labels (relabelled by JSON-LD processing) by positional placeholders, so that
+// sets are compared exactly on IRIs and literals and by number on blank nodes. Input must be sorted and distinct.
+func blankByCount(ss []string) []string {
+	var out []string
+	k := 0
+	for _, s := range ss {
+		if strings.HasPrefix(s, "_:") {
+			out = append(out, fmt.Sprintf("_:blank#%d", k))
+			k++
+		} else {
+			out = append(out, s)
+		}
+	}
+	sort.Strings(out)
+	return out
 }
 
 func dedupSorted(ss []string) []string {
@@ -328,6 +379,11 @@ func pathLabels(p *m.P) []string {
 			}
 		case "type":
 			set["@type-step"] = true
+		case "ext":
+			set["custom-property-step"] = true
+			if x.Inv {
+				set["custom-property-inverse-step"] = true
+			}
 		}
 		if x.Kind == "alt" && strings.Contains(parents, "seq") && strings.Contains(parents, "alt") {
 			set["alt-in-seq-in-alt"] = true
@@ -355,7 +411,7 @@ func TestC02(t *testing.T) {
 // ---------------------------------------------------------------- exhaustive small family
 
 func smallPathFamily() []*m.P {
-	leaves := []*m.P{m.Pred("e0", false), m.Pred("e0", true), m.Pred("e1", false), m.Pred("e1", true), m.Pred("p0", false), m.TypeStep()}
+	leaves := []*m.P{m.Pred("e0", false), m.Pred("e0", true), m.Pred("e1", false), m.Pred("e1", true), m.Pred("p0", false), m.TypeStep(), m.Ext("w0", false), m.Ext("w0", true)}
 	var out []*m.P
 	out = append(out, leaves...)
 	ops := []string{"seq", "alt"}
@@ -411,6 +467,17 @@ func fixedPathGraph() *m.Graph {
 	n[1].AddVal(p0, m.LV(m.I(7)))
 	n[3].AddVal(p0, m.NV(0))
 	n[4].AddVal(p0, m.LV(m.B(true)))
+	// custom domain properties: n0 -w0-> x5, n1 -w0-> x7 and n1 -w1-> x9 (ids after the property nodes)
+	x := g.Add(m.NS + "Extension")
+	g.AttachExtension(0, x, "w0")
+	g.Nodes[x].AddVal(p0, m.LV(m.S("a")))
+	g.Nodes[x].AddVal(e0, m.NV(3))
+	y := g.Add(m.NS + "Extension")
+	g.AttachExtension(1, y, "w0")
+	g.Nodes[y].AddVal(e1, m.NV(0))
+	z := g.Add(m.NS + "Extension")
+	g.AttachExtension(1, z, "w1")
+	g.Nodes[z].AddVal(p0, m.LV(m.I(7)))
 	return g
 }
 
